@@ -157,7 +157,6 @@ func retarget(t Tree, oldA, a, oldB, b string) Tree {
 // helper calls that need no resolver and no interface scan
 func genPureCall(r *rng.R, host, urlS string) (string, []Arg) {
 	hostArg := Arg{K: "host"}
-	isV4 := net.ParseIP(host) != nil && strings.Count(host, ".") == 3
 	for {
 		switch r.Intn(9) {
 		case 0:
@@ -172,9 +171,10 @@ func genPureCall(r *rng.R, host, urlS string) (string, []Arg) {
 			}
 			return "shExpMatch", []Arg{hostArg, Lit(r.Pick([]string{"127.*", "*.2", "local*", "*", "1?7.0.0.?", "*:*", "??????????"}))}
 		case 5:
-			if isV4 {
-				return "isInNet", []Arg{hostArg, Lit(r.Pick([]string{"127.0.0.0", "127.0.0.2", "10.0.0.0"})), Lit(r.Pick([]string{"255.0.0.0", "255.255.255.255", "255.255.255.254"}))}
-			}
+			// isInNet resolves a host that is not an address literal: the script runs for every target (also "localhost"),
+			// and the binary would ask the real resolver; give it an address literal
+			return "isInNet", []Arg{Lit(r.Pick([]string{"127.0.0.1", "127.0.0.2", "10.1.2.3"})), Lit(r.Pick([]string{"127.0.0.0", "127.0.0.2", "10.0.0.0"})),
+				Lit(r.Pick([]string{"255.0.0.0", "255.255.255.255", "255.255.255.254"}))}
 		case 6:
 			return "isInNetEx", []Arg{hostArg, Lit(r.Pick([]string{"127.0.0.0/8", "127.0.0.2/31", "::1/128", "::/0", "10.0.0.0/8"}))}
 		case 7:
